@@ -366,6 +366,55 @@ partial def go (md : Mode) (s : St) : List String → Verdict
     | "->" :: "hang" :: x => Verdict.spec ("hang: " ++ " ".intercalate x) s.tags
     | _ => Verdict.corr s!"unknown line {l}" s.tags
 
+/-! ### Driver::Step under injected EINTR (transcripts of harness scen/todos.cpp, no ToDos pending) -/
+
+partial def goStep (tags : List String) : List String → Verdict
+  | [] => { tags := tags }
+  | l :: rest =>
+    match words l with
+    | ["step", T] =>
+      match T.toInt? with
+      | none => Verdict.corr s!"bad line {l}"
+      | some T =>
+        let obsLines := (rest.takeWhile (fun x => (obs? x).isSome)).filterMap obs?
+        let rest' := rest.dropWhile (fun x => (obs? x).isSome)
+        match obsLines.find? (fun o => o.head? == some "crash" ∨ o.head? == some "hang" ∨ o.head? == some "throw") with
+        | some o => Verdict.spec ("a signal made Step fail: " ++ " ".intercalate o) tags
+        | none =>
+        let polls : List (Int × PollAns) := obsLines.filterMap fun o =>
+          match o with
+          | ["poll", ms, _, res, adv] =>
+            match ms.toInt?, adv.toNat? with
+            | some ms, some adv =>
+              some (ms, if res == "eintr" then PollAns.eintr adv else if res == "timeout" then PollAns.timedOut else PollAns.ready adv)
+            | _, _ => none
+          | _ => none
+        let beginT := (obsLines.find? (fun o => o.head? == some "begin")).bind fun o => (o.getD 1 "").toInt?
+        let endT := (obsLines.find? (fun o => o.head? == some "end")).bind fun o => (o.getD 1 "").toInt?
+        let os : Os := { polls := polls.map (·.2) }
+        let (r, os') := wait T os
+        let hadEintr := polls.any fun p => match p.2 with | .eintr _ => true | _ => false
+        -- property: the step keeps waiting within its timeout semantics
+        let specMsg : Option String :=
+          match specTimeouts T (polls.map fun p => SysObs.poll p.1 p.2) (match r with | .ok false => true | _ => false) with
+          | some m => some m
+          | none =>
+            match beginT, endT with
+            | some b, some e =>
+              if T > 0 ∧ polls.all (fun p => match p.2 with | .ready _ => false | _ => true) ∧ e - b < T * nsPerMs then
+                some s!"Step({T}) returned after {(e - b) / nsPerMs} ms although nothing happened (a signal cut the wait short)"
+              else none
+            | _, _ => some "missing begin/end"
+        match specMsg with
+        | some m => Verdict.spec m tags
+        | none =>
+          if pollArgs os' ≠ polls.map (·.1) then Verdict.corr s!"'{l}': poll timeouts {polls.map (·.1)} differ from the model's {pollArgs os'}" tags
+          else if !os'.polls.isEmpty then Verdict.corr s!"'{l}': implementation issued more polls than the model" tags
+          else goStep ((if hadEintr then ["eintr", "step.eintr"] else ["step"]) ++ tags) rest'
+    | _ => goStep tags rest
+
+def runCaseC16step (body : List String) : Verdict := { (goStep [] body) with }
+
 def runCaseC01 (body : List String) : Verdict := go { c01 := true, c07 := false, c16 := false } {} body
 def runCaseC07 (body : List String) : Verdict := go { c01 := false, c07 := true, c16 := false } {} body
 def runCaseC16 (body : List String) : Verdict := go { c01 := false, c07 := false, c16 := true } {} body
